@@ -1,7 +1,50 @@
 package main
 
 // Mapping of properties to the rules that decide their structural clauses (DESIGN.md section 5).
-var propertyRules = map[string][]string{}
+// A rule listed for several properties runs once per process; its obligations count for each of them.
+var propertyRules = map[string][]string{
+	"C01": {"LK1", "LK2", "LK3", "LK4", "LK6", "RD1", "RD2", "VD2", "VD3", "OU3", "WR5"},
+	"C02": {"LK1", "LK2", "LK3", "LK4", "LK5", "LK6", "WR1", "WR2", "WR5", "DT4", "VD1"},
+	"C03": {"WR1", "WR2", "WR4", "WR6", "LK1"},
+	"C04": {"WR3", "LK5", "WR1"},
+	"C05": {"DT5", "DT4", "WR1", "LK4"},
+	"C06": {"VD2", "VD3", "VD4", "VD1", "VD11", "VD14"},
+	"C07": {"VD5", "VD6", "LK2", "LK3", "LK4", "LK5", "VD13"},
+	"C08": {"RD1", "RD2"},
+	"C09": {"VD7", "VD6", "VD10", "LK4", "DT2", "DT5"},
+	"C10": {"VD1", "LK5", "VD11", "VD12", "VD14"},
+	"C11": {"VD12", "VD13", "VD1", "LK5", "WR1", "WR2", "VD5", "OU3"},
+	"C12": {"DT1", "DT2", "DT3", "DT4", "WR2", "LK6"},
+	"C13": {"LK7", "WR1", "WR3", "WR6"},
+	"C14": {"VD8", "VD7"},
+	"C15": {"RD3"},
+	"C16": {"OU1", "OU2", "OU3", "WR5", "VD10", "VD11"},
+	"C17": {"OU4", "VD12", "DT4", "DT5", "VD13"},
+	"C18": {"ST1", "ST2", "LK1", "LK2", "WR1"},
+	"C19": {"OU5", "OU6", "VD8"},
+	"C20": {"VD9", "ST2", "DT4", "DT5", "LK4", "WR5"},
+}
 
-// propertyScope: one sentence per property saying which clauses are decided and which are not.
-var propertyScope = map[string]string{}
+// propertyScope: which clauses are decided and which are not (repeated in MANIFEST level_note).
+var propertyScope = map[string]string{
+	"C01": "Decided: the claim's read-select-append runs inside one exclusive non-blocking flock section on the store's lock file, re-reading the log after acquisition, with no asynchronous effect; selection is element 0 of the oldest-first tasks-only ready list; the emitted pair is claim(agent)+state(doing) for the chosen id and the reply carries the same values; commit errors propagate. Not decided: flock semantics of the OS/filesystem; the full readiness truth table (C08).",
+	"C02": "Decided: every log mutation is reachable only under the exclusive fail-fast lock with the log re-read inside; one commit per command; no truncating or unlocked writer; history only grows; storage errors propagate; no failure after a commit. Not decided: equivalence to a serial order for arbitrary command multisets beyond what these clauses imply for single-commit commands.",
+	"C03": "Decided: rewrite = truncated temp + checked flush + rename (never in place); append inspects the tail and rewrites a torn one; the reader tolerates an unterminated final line based on the scanned bytes only; missing lock file recreated non-destructively. Not decided: enumeration of byte offsets; power loss; ENOSPC mid-rename.",
+	"C04": "Decided: one write(2) per commit on the append path (no loop, no buffered writer); one commit per command; plan/compact commit by rename. Not decided: atomicity of a single large write(2) against SIGKILL at page granularity (a torn line is C03's business).",
+	"C05": "Decided: every observable field is read by compaction; payload literals complete; only live ids emitted; update events emitted whenever current differs from created; claim before state; results re-emitted from the end; compaction's commit is the atomic replace under the lock. Not decided: equality of the round trip for all histories (timestamps, idempotence) — value level.",
+	"C06": "Decided: every state event is dominated by the transition and claim-invariant validators on the recorded value and then recorded; claim/unclaim emissions are followed or preceded by the invariant check on every feasible success path and confined to non-epics; the five claim/state tables agree with the property's sets; no failure after commit. Not decided: that the 6x6 table is the intended one beyond the documented rows.",
+	"C07": "Decided: every link emission is dominated by existence, self, kind and cycle checks on the emitted ids against the graph loaded in the same lock section, the in-memory graph is extended per accepted edge; replay guards tombstoned ids; plan edges are between ids minted in the callback. Not decided: correctness of the reachability search itself; that unlink removes exactly one edge (value level).",
+	"C08": "Decided: the structure of isReady/isBlocked/isEpicComplete/areEpicDepsComplete (every return's dominating conditions against the definition), the satisfied-state sets of all four siblings, the claim's selection (kind, filter, element 0, oldest-first total comparator). Not decided: the truth table over all graphs as values.",
+	"C09": "Decided: eligibility sets and counters of the prune policy, commit behind apply, tombstones = reported plan, replay's tombstone guards and unconditional application, id generator consults live ids and tombstones, dry run is pure, compaction emits only live ids. Not decided: every later command sequence beyond these guards.",
+	"C10": "Decided: no error return after a commit inside any lock section; no error exit after a committing call in any command (other than reply I/O); one commit per command; every consumed update key is recorded; strict parse and validation before the first commit. Not decided: failures of the reply write itself (EPIPE) — inherent.",
+	"C11": "Decided: strict decode (unknown keys, single value), validation before commit, one epic + one todo task per entry inside that epic with verbatim text, edges guarded by self/cycle checks, reply ids = committed ids, single atomic prefix-preserving commit. Not decided: the validation logic for all DAG shapes and Unicode title equality.",
+	"C12": "Decided: map-iteration order never reaches output/event order unsorted; read commands reach no file mutation; located parse errors; emitted event types = replayed types and all payload fields replayed; history only grows; no exit/panic in the library. Not decided: totality over arbitrary byte strings (no panic/hang) — value level.",
+	"C13": "Decided: list/show cannot reach the lock; rewrites are temp+rename; a command's lines appear with one write; the reader is one sequential scan tolerating a torn tail from the scanned bytes. Not decided: the full reader-start x writer-step schedule space.",
+	"C14": "Decided: every recorded epic reference is dominated by a live-epic check in the same lock section (or provably absent); epics are pruned only when childless. Not decided: hand-merged logs that carry dangling references.",
+	"C15": "Decided: whether the cycle guard can see the effective waits-for relation at all (its read-set) and whether epic moves / creation in an epic are guarded. Not decided: acyclicity of the effective relation after a hypothetical repair.",
+	"C16": "Decided: under --json no text reaches stdout, at most one JSON value is written per path and no success return skips it; errors reach exitErr, stderr and a non-zero exit; replies carry the committed values; ids come from the collision-checked generator. Not decided: equality of every reply field with the next read for all states.",
+	"C17": "Decided: titles and bodies flow from the input to the recorded events through loads/stores/map entries only (TrimSpace only on the documented title paths); strict decode; title/body payload fields replayed and re-emitted by compaction. Not decided: encoding/json and bufio behaviour on all Unicode (trusted).",
+	"C18": "Decided: one chooser for the log file with the documented preference, used by every command including init; absolute start of the upward search and absolute repoDir; lock file recreated non-destructively; lock and log belong to the same directory. Not decided: nested-project layouts beyond the walk's structure.",
+	"C19": "Decided: renderers never byte-slice strings at non-rune offsets; the documented empty-state sentences are what is printed; tasks are only ever filed under live epics (so none is orphaned). Not decided: width arithmetic, glyph placement, summary counts — numeric.",
+	"C20": "Decided: the result emission is dominated by the task/summary/path validators, stores the cleaned path and the evidence of that same file; the path validator's accepting return is dominated by every confinement check incl. regular-file; repoDir absolute; all result fields replayed and re-emitted in agreeing order. Not decided: symlink resolution; ordering over all later histories as values.",
+}
